@@ -36,19 +36,24 @@ def minimise_ops_case(case, fails, budget_s=60.0, ops_key="ops"):
     best = copy.deepcopy(case)
     ops = best[ops_key]
 
+    def with_ops(base, new_ops, m):
+        c = dict(base)
+        c[ops_key] = new_ops
+        if isinstance(base.get("final"), list):
+            c["final"] = [m[i] for i in base["final"] if i in m]
+        return c
+
     def test_keep(keep):
-        new_ops, _ = W.remap_ops(ops, keep)
+        new_ops, m = W.remap_ops(ops, keep)
         if not new_ops:
             return False
-        c = dict(best)
-        c[ops_key] = new_ops
-        return fails(c)
+        return fails(with_ops(best, new_ops, m))
 
     keep = list(range(len(ops)))
     keep = ddmin_list(keep, test_keep, budget)
-    new_ops, _ = W.remap_ops(ops, keep)
+    new_ops, m = W.remap_ops(ops, keep)
     if new_ops and len(new_ops) < len(ops):
-        best[ops_key] = new_ops
+        best = with_ops(best, new_ops, m)
     # one-by-one removal pass (ddmin may stall on dependent ops)
     changed = True
     while changed and time.monotonic() < budget:
@@ -58,11 +63,10 @@ def minimise_ops_case(case, fails, budget_s=60.0, ops_key="ops"):
             if time.monotonic() >= budget:
                 break
             k = [j for j in range(len(ops)) if j != i]
-            new_ops, _ = W.remap_ops(ops, k)
+            new_ops, m = W.remap_ops(ops, k)
             if not new_ops or len(new_ops) >= len(ops):
                 continue
-            c = dict(best)
-            c[ops_key] = new_ops
+            c = with_ops(best, new_ops, m)
             if fails(c):
                 best = c
                 changed = True
